@@ -23,6 +23,7 @@ from typing import (
 
 from ._missing import MISSING, MaybeMissing
 from .exceptions import EvaluationError, InsufficientInformationError
+from .iterable import Iter
 from .option import Option
 from .types import Evaluatable, MaybeEvaluatable, Options
 
@@ -220,14 +221,18 @@ class CaseWhen(Generic[A, B], Evaluatable[B]):
         self.default = default
 
     def _evaluate(self, value: A, options: Options) -> Evaluatable[B]:
-        for condition, result in self.cases:
+        for index, (condition, result) in enumerate(self.cases):
             if condition.evaluate(options)(value):
-                return result
+                return _DependsOn(result, self._conditions(index + 1))
 
         if self.default is not MISSING:
-            return self.default
+            return _DependsOn(self.default, self._conditions(len(self.cases)))
 
         raise CaseWhenError(self.dispatch, value)
+
+    def _conditions(self, count: int) -> Evaluatable[Any]:
+        """The conditions consulted to choose a branch; the choice depends on them."""
+        return Iter(*(condition for condition, _ in self.cases[:count]))
 
     def _bound(self, options: Options) -> Evaluatable[B]:
         return self.dispatch.bind(functools.partial(self._evaluate, options=options))
